@@ -45,7 +45,7 @@ def gen_scenario(rng, quick, opts=None):
                       'stop': None})
     if rng.random() < 0.25:
         specs[0]['stop'] = rng.randint(1, 6)
-    return {'cfg': cfg, 'specs': specs, 'seed': rng.randint(0, 10 ** 9), 'argv': []}
+    return {'cfg': cfg, 'specs': specs, 'seed': rng.randint(0, 10 ** 9), 'argv': ['-f'] if rng.random() < 0.15 else []}
 
 
 def run_scenario(ck, scen, tag):
@@ -75,12 +75,24 @@ def run_scenario(ck, scen, tag):
                         ms.insert(0, (rng.choice(scen['hostile']), rng.choice(dp.UNITS), dp.gen_value(rng)))
         scen['hostile_applied'] = True
     scen['outputs'], scen['build_ok'] = outputs, build_ok
-    fail_style = {(i, inv + 1): rng.choice(['rc', 'garbage']) for i, per in enumerate(outputs)
-                  for inv, o in enumerate(per) if o is None}
+    raw = scen.get('raw')
+    if raw is None:
+        raw = dp.build_raw(rng, probe, outputs)
+    scen['raw'] = raw
+    faulty = '-f' in scen.get('argv', []) or '--faulty' in scen.get('argv', [])
+    probe.raw, probe.faulty = raw, faulty
+    ck.count('session-option:--faulty' if faulty else 'session-option:plain')
+    for i, per in enumerate(raw):
+        for o in per:
+            if o['rc'] != 0 and o['dps']:
+                ck.count('outcome:exit%s-after-results,%s' % ('-9' if o['rc'] == -9 else '!=0', 'ignore_timeouts'
+                                                              if probe.runs[i]['ignore_timeouts'] else 'plain'))
+    # what the property calls the data of a successful invocation (independent of the model's classification)
+    outputs = dp.effective_outputs(probe, raw, faulty)
     observed = []
     prev = [''] * len(probe.files)
     for spec in scen['specs']:
-        script = dp.make_script(probe, outputs, build_ok, stop=spec.get('stop'), fail_style=fail_style)
+        script = dp.make_script(probe, outputs, build_ok, stop=spec.get('stop'), raw=raw)
         ob = dp.run_real_session(wd, probe, ['-s', spec['sched']] + list(scen.get('argv', [])), script,
                                  random_choice=dp.choice_fn(spec['choices']) if spec['sched'] == 'random' else None)
         ob.before = prev
@@ -101,7 +113,7 @@ def compare_and_judge(ck, items):
     answers = ck.model(ops)
     for (scen, probe, outputs, build_ok, observed), ans in zip(items, answers):
         inp = {'cfg': scen['cfg'], 'specs': scen['specs'], 'seed': scen['seed'], 'argv': scen.get('argv', []),
-               'outputs': outputs, 'build_ok': build_ok}
+               'outputs': scen['outputs'], 'raw': scen['raw'], 'build_ok': build_ok}
         judge(ck, inp, probe, outputs, build_ok, observed, ans)
 
 
@@ -199,7 +211,7 @@ def flush_oracle(ck, inp, probe, outputs, ob, profile_files):
                 ck.oracle_fail('flushed_before_next_start', inp,
                                {'file': fname, 'start_number': n + 1, 'rows_on_disk': len(rows),
                                 'rows_persisted': expected, 'ends_in_whole_line': not torn},
-                               {'kind': 'torn-line' if torn else 'behind' if len(rows) < expected else 'other'})
+                               {'kind': 'torn-line' if torn else 'behind' if len(rows) < expected else 'rows-nobody-should-have-recorded' if len(rows) > expected else 'other'})
                 return
             if s[0] == 'r' and fi in probe.runs[s[1]]['files'] and not probe.runs[s[1]]['profile']:
                 o = outputs[s[1]][s[2] - 1] if s[2] - 1 < len(outputs[s[1]]) else None
@@ -615,7 +627,7 @@ def replay(ck, data):
         ck.notes.append('URL replays are covered by the fixed URL table of every run')
         check_urls(ck, 0)
         return
-    scen = {k: inp[k] for k in ('cfg', 'specs', 'seed', 'argv', 'outputs', 'build_ok') if k in inp}
+    scen = {k: inp[k] for k in ('cfg', 'specs', 'seed', 'argv', 'outputs', 'raw', 'build_ok') if k in inp}
     if scen.get('outputs'):
         scen['outputs'] = [[None if o is None else [[tuple(m) for m in d] for d in o] for o in per]
                            for per in scen['outputs']]
